@@ -16,6 +16,7 @@ type c16Restart struct {
 	Name    string `json:"name"`
 	Storage string `json:"storage"`
 	Source  string `json:"source"`
+	Strict  bool   `json:"crl_cdp_strict"`
 	Before  string `json:"before_restart"`
 	After   string `json:"after_restart"`
 	Fresh   string `json:"fresh_work_dir_same_configuration"`
@@ -46,17 +47,24 @@ func c16RestartStage(c *Ctx) {
 		ch              change
 		storage, source string
 		res             *c16Restart
+		strict          bool
 	}
 	var jobs []job
 	var wg sync.WaitGroup
 	sem := make(chan struct{}, 8)
 	for _, storage := range []string{"memory", "disk"} {
-		for _, source := range []string{"cdp", "crl_urls"} {
+		for _, source := range []string{"cdp", "crl_urls", "cdp-lenient"} {
 			for _, ch := range changes {
 				n++
+				// "cdp-lenient": the same with crl_cdp_strict off — strictness must not be what keeps a persisted
+				// unverifiable list from answering
+				strict := source != "cdp-lenient"
+				if !strict {
+					source = "cdp"
+				}
 				n, ch, storage, source := n, ch, storage, source
-				res := &c16Restart{Name: ch.name, Storage: storage, Source: source}
-				jobs = append(jobs, job{n, ch, storage, source, res})
+				res := &c16Restart{Name: ch.name, Storage: storage, Source: source, Strict: strict}
+				jobs = append(jobs, job{n, ch, storage, source, res, strict})
 				wg.Add(1)
 				sem <- struct{}{}
 				go func() {
@@ -64,7 +72,7 @@ func c16RestartStage(c *Ctx) {
 					defer func() { <-sem }()
 					var wA *World
 					run := func(w *World, sig string, trusted bool, restart bool) string {
-						w.Cfg = VCfg{Mode: "crl_only", Storage: storage, SigMode: sig, CDPStrict: true, Interval: "1h"}
+						w.Cfg = VCfg{Mode: "crl_only", Storage: storage, SigMode: sig, CDPStrict: strict, Interval: "1h"}
 						if source == "crl_urls" {
 							w.Cfg.CRLUrls = []string{w.Org.URL("/a")}
 						}
@@ -144,7 +152,7 @@ func c16RestartStage(c *Ctx) {
 						if sig == "" {
 							sig = "verify"
 						}
-						return coqCfg(HistCfg{Storage: storage, SigMode: sig, Fetch: "fetch_actively", Strict: true})
+						return coqCfg(HistCfg{Storage: storage, SigMode: sig, Fetch: "fetch_actively", Strict: j.strict})
 					}
 					code := map[string]string{"accept": "1", "revoked": "2", "error": "3"}
 					var obs []string
@@ -162,7 +170,7 @@ func c16RestartStage(c *Ctx) {
 						n, cfgOf(ch.sig1), seg1, cfgOf(ch.sig2), cert(serial, ch.trust), cert(103, ch.trust), strings.Join(obs, "; ")))
 				}
 				if res.After != res.Fresh {
-					c.Fail("", fmt.Sprintf("restart with a changed configuration (%s; %s, %s): before %q, after the restart %q, but a fresh work_dir under the new configuration gives %q — a CRL that fails verification is in force after the restart", ch.name, storage, source, res.Before, res.After, res.Fresh), res)
+					c.Fail("", fmt.Sprintf("restart with a changed configuration (%s; %s, %s, strict=%v): before %q, after the restart %q, but a fresh work_dir under the new configuration gives %q — a CRL that fails verification is in force after the restart", ch.name, storage, source, res.Strict, res.Before, res.After, res.Fresh), res)
 				}
 			}
 		}
